@@ -492,6 +492,7 @@ class PlanBuilder:
         self.sliced = []  # roots cut by their sequence chunk
         self.orf_roots = []  # coding roots with a planted ORF (often an alternative start codon) on a parent with sequence
         self.strain_twins = []  # pairs of collections with the same sequence name, length and annotation, other bases
+        self.overlap_roots = []  # stand-alone CDS whose blocks overlap
         self.order_twins = []  # pairs of roots that differ only in the order of their children
         self.objects = {}
         self.infos = {}
@@ -663,6 +664,7 @@ def _annotation_roots(pb, rng, size):
             t["cds_frames"] = specs.frames_for(cs, ce, t["strand"], f0)
             names.append(pb.add_root("cds", specs.with_parent(t, parent)))
             pb.sliced.append(names[-1])  # preferred by covering walks, like roots cut by their chunk
+            pb.overlap_roots.append(names[-1])
     # a stand-alone TRANSCRIPT whose CDS does not tile its exons: one CDS block is split in two pieces that overlap by 1-3 bp
     # (-1 frameshift) or leave 1-2 bp of the exon out (+1 / +2 frameshift): CDS coordinates and transcript coordinates stop
     # being a constant offset apart
@@ -998,6 +1000,19 @@ def gen_plan(rng, check="C10", size=1, max_steps=60, known_avoid=()):
     base_steps = sum(len(x) for x in sessions)
     # spotlight: a root with unusual book-keeping (cut by its chunk, overlapping CDS blocks) gets a short session of its
     # own made of the questions that keep two sets of books (codon locations vs sequence), in a seed-chosen order
+    for n in pb.overlap_roots:
+        # the codon that spans an overlap exists in two forms (a Location in genome order, bases in reading order): the
+        # codon-location questions and the sequence questions are asked in both orders
+        first, second = (["chunk_relative_codon_locations", "chromosome_codon_locations"], ["translate", "extract_sequence", "scan_codons"])
+        if rng.random() < 0.35:
+            first, second = second, first
+        steps = []
+        for x in [rng.choice(first)] + rng.sample(second, 2) + [rng.choice(first)]:
+            st = pb.call_step(len(sessions), n, BY_NAME["cds"][x], store_p=0.0)
+            if st:
+                steps.append(st)
+        if steps:
+            sessions.append(steps)
     for n in pb.sliced:
         if rng.random() < 0.6:
             kind = pb.objects[n]["kind"]
